@@ -666,10 +666,14 @@ pub fn build_default_config(conf: &crate::config::Config, request: &DHCPRequest)
                 use crate::config::Match as _;
                 use crate::config::PrefixOps as _;
                 let subnet = erbium_net::Ipv4Subnet::new(p4.network(), p4.prefixlen).ok()?;
+                /* The number of addresses in the prefix.  A /0 cannot be enumerated, and
+                 * prefixes longer than /30 have no assignable host addresses.
+                 */
+                let size = 1_u32.checked_shl(32 - u32::from(p4.prefixlen))?;
                 let mut ret = config::Policy {
                     match_subnet: Some(subnet),
                     apply_address: Some(
-                        (1..((1 << (32 - p4.prefixlen)) - 2))
+                        (1..size.saturating_sub(2))
                             .map(|offset| (u32::from(subnet.network()) + offset).into())
                             // TODO: This removes one IP from the list, it should also remove any
                             // others found on the local machine.  Probably fine for now, but
